@@ -10,6 +10,39 @@ if sys.path[0] != REPO:
     sys.path.insert(0, REPO)
 
 logging.disable(logging.CRITICAL)
+logging.raiseExceptions = False
+
+
+class _Sink(logging.Handler):
+    """formats every record (so that a broken log call shows) and throws it away"""
+
+    def emit(self, record):
+        try:
+            self.format(record)
+        except Exception:  # noqa
+            pass
+
+
+_SINK = _Sink()
+DEBUG_LOGGING = [False]
+
+
+def debug_logging(on):
+    """environment fact: the application has switched pymodbus' loggers to DEBUG (every pymodbus example does); the library's
+    behaviour must not depend on it.  Records go to a sink, nothing is printed."""
+    lg = logging.getLogger('pymodbus')
+    if on and not DEBUG_LOGGING[0]:
+        logging.disable(logging.NOTSET)
+        logging.getLogger('asyncio').setLevel(logging.CRITICAL + 1)       # (its 'Task exception was never retrieved' notes at shutdown are not ours)
+        logging.getLogger().setLevel(logging.CRITICAL + 1)
+        lg.setLevel(logging.DEBUG)
+        lg.propagate = False
+        if _SINK not in lg.handlers:
+            lg.addHandler(_SINK)
+    elif not on and DEBUG_LOGGING[0]:
+        lg.setLevel(logging.WARNING)
+        logging.disable(logging.CRITICAL)
+    DEBUG_LOGGING[0] = bool(on)
 
 import pymodbus  # noqa: E402
 
